@@ -145,6 +145,76 @@ class StepGen:
             return None, 0
         return Slice(frag, 0, 0), k
 
+    def around_with_flat_gap(self, doc):
+        """A replace-around step whose gap is a flat run of sibling nodes (so that the step has a chance to
+        apply) around which an arbitrary slice of the pool - open or closed, one or several top-level
+        nodes - is placed with an arbitrary insertion offset."""
+        from prosemirror.transform import ReplaceAroundStep
+        r = self.rng
+        nodes = [(0, doc)]
+        doc.descendants(lambda node, pos, parent, index: nodes.append((pos + 1, node)) if not node.is_leaf and not node.is_text else None)
+        start, parent = r.choice(nodes)
+        cc = parent.child_count
+        i = r.randint(0, cc)
+        j = r.randint(i, cc)
+        gf = start + sum(parent.child(k).node_size for k in range(i))
+        gt = gf + sum(parent.child(k).node_size for k in range(i, j))
+        n = doc.content.size
+        f = max(0, gf - r.choice([0, 0, 1, 1, 2, 3]))
+        t = min(n, gt + r.choice([0, 0, 1, 1, 2, 3]))
+        if not self.slices:
+            return None
+        sl = r.choice(self.slices)
+        return ReplaceAroundStep(f, t, gf, gt, sl, r.randint(0, max(0, sl.size)), r.random() < 0.3)
+
+    def around_wrap_extended(self, doc):
+        """A wrap of a flat run of siblings in a random chain of wrapper types - which may or may not be
+        able to hold the gap - extended on both sides: the step's range reaches back to `from` and on to
+        `to`, and the slice re-inserts what was there (so it is open where from/to are deeper than the gap).
+        This yields slices with several top-level nodes, deep open sides and the gap inside a closed node."""
+        from prosemirror.model import Fragment, Slice
+        from prosemirror.transform import ReplaceAroundStep
+        r = self.rng
+        nodes = [(0, doc, 0)]
+
+        def visit(node, pos, parent, index):
+            if not node.is_leaf and not node.is_text:
+                nodes.append((pos + 1, node, doc.resolve(pos + 1).depth))
+        doc.descendants(visit)
+        start, parent, k = r.choice(nodes)
+        cc = parent.child_count
+        if cc == 0:
+            return None
+        i = r.randint(0, cc - 1)
+        j = r.randint(i + 1, cc)
+        gf = start + sum(parent.child(x).node_size for x in range(i))
+        gt = gf + sum(parent.child(x).node_size for x in range(i, j))
+        n = doc.content.size
+        lo = start
+        hi = start + parent.content.size
+        f = r.randint(lo, gf) if r.random() < 0.5 else gf
+        t = r.randint(gt, hi) if r.random() < 0.7 else gt
+        try:
+            head = doc.slice(f, gf) if f < gf else Slice.empty
+            tail = doc.slice(gt, t) if t > gt else Slice.empty
+        except Exception:  # noqa: BLE001
+            return None
+        if head.open_end or tail.open_start:
+            return None
+        names = [nm for nm in self.info.order if not self.info.is_leaf(nm) and nm != "text" and nm != self.info.top]
+        m = r.choice([1, 1, 2, 2, 3])
+        frag = Fragment.empty
+        try:
+            for _ in range(m):
+                nm = r.choice(names)
+                attrs = {a: json.loads(v) for a, v in self.dg.attrs(nm).items()}
+                frag = Fragment.from_(self.schema.nodes[nm].create(attrs, frag))
+        except Exception:  # noqa: BLE001
+            return None
+        content = head.content.append(frag).append(tail.content)
+        sl = Slice(content, head.open_start, tail.open_end)
+        return ReplaceAroundStep(f, t, gf, gt, sl, head.size + m, r.random() < 0.5)
+
     def random_step(self, doc):
         from prosemirror.model import Slice
         from prosemirror.transform import (AddMarkStep, AddNodeMarkStep, AttrStep, RemoveMarkStep,
